@@ -304,6 +304,9 @@ func createShimChannel(ctx context.Context, host, shimPath string, rewriteHost b
 		targetURL := *(r.URL)
 		targetURL.Scheme = "ws"
 		targetURL.Host = host
+		// An opaque URL ("scheme:rest") has no authority component, so the host set
+		// above would be ignored and the client-supplied text would name the peer.
+		targetURL.Opaque = ""
 		if originalHost := r.Host; rewriteHost && originalHost != "" {
 			r.Header.Set("Host", originalHost)
 		}
